@@ -20,7 +20,7 @@ SPEC = {
     'bounds': {'quick': {'trees_per_shard': 150, 'lists_per_tree': 14}, 'thorough': {'trees': 'until the time budget', 'lists_per_tree': 30}},
     'floor': {'quick': 5000, 'thorough': 60000},
     'required_counters': ['union_checks', 'uniqueness_checks', 'nounique_concat_checks', 'exclusion_removed', 'overlapping_lists',
-                          'pathlib_checks', 'icase_lists'],
+                          'pathlib_checks', 'icase_lists', 'several_globstar_checks'],
     'budget': {'quick': 45, 'thorough': 480},
     'shard_timeout': {'quick': 400, 'thorough': 1500},
     'assumptions': ['single patterns and exclusions are evaluated by wcmatch itself (decomposition law); C05 judges them against the tree',
@@ -278,10 +278,57 @@ def odd_name_lists(ctx):
                 ctx.count('odd_name_lists')
 
 
+NEST_TREE = [('a', 'd', None), ('a/a', 'd', None), ('a/a/b', 'd', None), ('a/a/b/f.txt', 'f', None), ('a/f.txt', 'f', None),
+             ('B', 'd', None), ('B/B', 'd', None), ('B/B/A', 'd', None), ('B/B/A/a', 'f', None), ('a/a/a', 'd', None), ('a/a/a/g', 'f', None)]
+
+
+def several_globstars(ctx):
+    """One pattern with two or three globstars on a tree whose directory names nest in themselves (`a/a/b`, `B/B/A`): the globstars can
+    split one path in several ways, and the path must still be returned once (no NOUNIQUE), with the same set as under NOUNIQUE.
+    Every position of the second globstar: in the middle, last, last with a separator, behind a wildcard segment."""
+    pats = ['**/a/**', '**/a/**/', 'a/**/a/**', '**/a/**/*', '**/*/**', 'B/**/*/**', '**/B/**', '**/a/**/b/**', '**/**/a/**', '**/a/**/f.txt',
+            '**/[a]/**', '**/a/***', '***/a/**']
+    fsets = [('GLOBSTAR',), ('GLOBSTAR', 'SCANDOTDIR'), ('GLOBSTAR', 'SCANDOTDIR', 'MARK'), ('GLOBSTAR', 'SCANDOTDIR', 'DOTGLOB'),
+             ('GLOBSTAR', 'MARK'), ('GLOBSTAR', 'SCANDOTDIR', 'NODIR'), ('GLOBSTAR', 'GLOBSTARLONG', 'SCANDOTDIR'), ('GLOBSTAR', 'NODOTDIR')]
+    idx, todo = 0, []
+    for pat in pats:
+        for fs in fsets:
+            idx += 1
+            if ctx.mine(idx) and ('***' not in pat or 'GLOBSTARLONG' in fs):
+                todo.append((pat, fs))
+    if not todo:
+        return
+    with T.Tree(NEST_TREE, 'c13n-') as tr:
+        for pat, fs in todo:
+            wit = {'tree': NEST_TREE, 'patterns': [pat], 'flags': list(fs), 'kw': {}, 'singles': [pat], 'exclusions': [], 'mode': 'several-globstars'}
+            with ctx.case(timeout=20, label=('several-globstars', pat, fs)):
+                flags = flags_of(fs)
+                for form in (pat, [pat]):
+                    try:
+                        ref = G.glob(form, flags=flags | G.NOUNIQUE, root_dir=tr.root)
+                        res = G.glob(form, flags=flags, root_dir=tr.root)
+                        it = list(G.iglob(form, flags=flags, root_dir=tr.root))
+                    except Exception as e:  # noqa: BLE001
+                        ctx.disagree(f'glob raised {type(e).__name__}', dict(wit, exception=repr(e)[:200]))
+                        break
+                    ctx.evals(3)
+                    ctx.count('several_globstar_checks')
+                    ctx.count('uniqueness_checks')
+                    if len(set(res)) != len(res) or len(set(it)) != len(it):
+                        dup = sorted({x for x in res + it if (res + it).count(x) > 2 or res.count(x) > 1})
+                        ctx.disagree('a path is returned twice', dict(wit, duplicates=dup[:10], result=res[:30]))
+                    elif set(res) != set(ref) or set(it) != set(ref):
+                        ctx.disagree('the de-duplicated result of one pattern is not the set of its NOUNIQUE result',
+                                     dict(wit, missing=sorted(set(ref) - set(res))[:10], extra=sorted(set(res) - set(ref))[:10]))
+                    if res:
+                        ctx.mark_nontrivial(('several-globstars', pat, fs))
+
+
 def run(ctx):
     quick = ctx.quick
     case_pair_scenarios(ctx)
     odd_name_lists(ctx)
+    several_globstars(ctx)
     k = 0
     limit = 150 if quick else 10 ** 9
     while k < limit and not ctx.out_of_time():
